@@ -477,6 +477,7 @@ def run(ctx):
     rule_b(ctx, R)
     rule_cd(ctx, R, sector, gauss_site)
     rule_ef(ctx, R, sector, gauss_site, scan_site)
-    from .kernels import run_c14g, run_c14h
+    from .kernels import run_c14g, run_c14h, run_c14i
     run_c14g(ctx)
     run_c14h(ctx)
+    run_c14i(ctx)
